@@ -14,7 +14,6 @@ Two calls with the same "s" share ONE schema object; equal specs under different
 """
 from __future__ import annotations
 
-import copy
 import re
 from collections import Counter
 
@@ -365,8 +364,3 @@ def features(w):
     f["class"] = cls
     f["expect_independent"] = not (f["cfg_writer"] or f["pd_override"] or f["pd_regex"])
     return f
-
-
-def variant_without_coerce(w, schema_idx, keys):
-    w2 = copy.deepcopy(w)
-    return w2, schema_idx, tuple(keys)
